@@ -151,7 +151,7 @@ def handle (args : List String) : String :=
       let stub := match r with
         | some m => toString m.stub
         | none => "-"
-      s!"ok={cellOk (ungeneratedDomains.contains d) (deprecatedLive.contains (d, N, n)) l r} mirrors={mir} stub={stub} agrees={agrees l r}"
+      s!"ok={cellOk (ungeneratedDomains.contains d) l r} mirrors={mir} stub={stub} agrees={agrees l r}"
     | _, _, _ => "bad-op"
   | "eager" :: d :: N :: n :: a :: kws =>
     match d.toNat?, N.toNat?, n.toNat?, parseArgs a, kws.mapM parseKw with
